@@ -181,6 +181,17 @@ impl GenState {
     }
 
     pub fn next_op(&mut self, rng: &mut Rng, p: &Profile) -> GenOp {
+        // the second in which an item's life ends: a conditional store carrying a CAS, addressed to exactly that item
+        // (the item must count as absent for it, whether or not anybody has looked at it since)
+        if p.name == "C05" && rng.chance(1, 4) {
+            let due: Vec<Vec<u8>> = self.info.iter().filter(|(_, i)| i.deadline == Some(self.now)).map(|(k, _)| k.clone()).collect();
+            if !due.is_empty() {
+                let k = rng.pick(&due).clone();
+                let opc = *rng.pick(&[op::ADD, op::ADD, op::ADDQ, op::REPLACE, op::SET]);
+                self.info.entry(k.clone()).or_default().deadline = None;
+                return GenOp::Req(wire::set_like(opc, &k, b"due", 1, 0, *rng.pick(&[7u64, 1, u64::MAX]), rng.next() as u32).bytes());
+            }
+        }
         let key = rng.pick(&self.keys).clone();
         let opaque = rng.next() as u32;
         let quiet = rng.chance(p.quiet_pct, 100);
